@@ -63,7 +63,7 @@ type world struct {
 	obsStop  context.CancelFunc
 	universe []string // every name a packet may carry (nodes + phantoms)
 	services map[string][]string
-	socks    map[string]netceptor.PacketConner // sending socket "src" of every node
+	socks    map[string][]netceptor.PacketConner // sending sockets src0..src3 of every node (probe n uses n mod 4)
 	sockNtf  map[string]chan netceptor.UnreachableNotification
 	injected map[string]map[string]string // tables to keep in place (nil = converged)
 	timeouts map[[2]string]int            // pings without any answer, per (source, target)
@@ -80,52 +80,107 @@ type world struct {
 	grpDesc      string
 	grpProbes    []string
 	grpLabels    []string
-	pending      *pendingProbe
+	records      []probeRec      // every probe of the scenario, committed at its end
+	truncated    map[uint32]bool // probes of which something arrived after their observation window
+	cur          curProbe
 	probeNo      uint32
 	silentTraces int
 	longWaits    int  // expected events that did not come within the generous wait
 	runaway      bool // far more packets than any budget allows: forwarding does not stop
 }
 
-// addProbe holds a probe back until the next probe starts: if the mesh showed activity in
-// between, the observation window was closed too early and the record is discarded (counted).
-func (w *world) addProbe(cf *CaseFile, desc, probe, label string) {
-	w.pending = &pendingProbe{desc, probe, label, atomic.LoadInt64(&w.activity)}
+// Attribution.  Every probe has a number.  A send probe's payload starts with that number and its
+// sending socket is src<number mod 4>, so every packet, delivery and notice that the observers
+// see can be attributed: what belongs to an EARLIER probe (its observation window was closed
+// too early: a loaded machine can stall a chain for longer than any silence we wait for) is
+// kept out of the current record and marks that earlier probe as truncated.  Records are
+// committed at the end of the scenario, without the truncated ones.
+const nSrc = 4
+
+type curProbe struct {
+	no         uint32
+	send       bool // a send probe (taps, deliveries and notices are recorded); otherwise ping/traceroute
+	src, fsvc  string
+	to, tsvc   string
+	viaSocket  bool
+	payloadTag [4]byte
 }
 
-type pendingProbe struct {
+type probeRec struct {
+	no                 uint32
 	desc, probe, label string
-	activity           int64
 }
 
-func (w *world) resnapshot() {
-	if w.pending != nil {
-		w.pending.activity = atomic.LoadInt64(&w.activity)
-	}
+func srcName(no uint32) string { return fmt.Sprintf("src%d", no%nSrc) }
+
+// begin starts a probe (nothing of it is in flight yet).
+func (w *world) begin(send bool, src, fsvc, to, tsvc string, viaSocket bool) uint32 {
+	w.mu.Lock()
+	defer w.mu.Unlock()
+	w.probeNo++
+	n := w.probeNo
+	w.cur = curProbe{no: n, send: send, src: src, fsvc: fsvc, to: to, tsvc: tsvc, viaSocket: viaSocket,
+		payloadTag: [4]byte{byte(n >> 24), byte(n >> 16), byte(n >> 8), byte(n)}}
+	w.taps, w.dlvs, w.ntfs, w.sockNtfs = nil, nil, nil, nil
+	return n
 }
 
-// checkPending is called before anything new is sent.
-func (w *world) checkPending(cf *CaseFile, im *Impl) {
-	p := w.pending
-	w.pending = nil
-	if p == nil {
-		return
+// ownData: does a data payload belong to the current send probe?  (call with w.mu held)
+func (w *world) ownData(data []byte) bool {
+	if len(data) < 4 {
+		return false // ping traffic and the like
 	}
-	if atomic.LoadInt64(&w.activity) != p.activity {
-		im.Hist("discarded:late-activity-after-observation-window")
-		return
+	tag := uint32(data[0])<<24 | uint32(data[1])<<16 | uint32(data[2])<<8 | uint32(data[3])
+	if w.cur.send && tag == w.cur.no {
+		return true
 	}
-	if p.desc != w.grpDesc || len(w.grpProbes) >= 12 {
-		w.flushGroup(cf)
+	if tag < w.probeNo+1 && tag > 0 && tag != w.cur.no {
+		w.truncated[tag] = true
 	}
-	w.grpDesc = p.desc
-	w.grpProbes = append(w.grpProbes, p.probe)
-	w.grpLabels = append(w.grpLabels, p.label)
+	return false
 }
 
+// ownNotice: is a notice about the current send probe's datagram?  (call with w.mu held)
+func (w *world) ownNotice(m netceptor.UnreachableMessage) bool {
+	if w.cur.send && m.FromNode == w.cur.src && m.FromService == w.cur.fsvc && m.ToService == w.cur.tsvc {
+		return true
+	}
+	if strings.HasPrefix(m.FromService, "src") && len(m.FromService) == 4 { // an earlier send probe's socket
+		k := uint32(m.FromService[3] - '0')
+		for n := w.cur.no - 1; n > 0 && n+2*nSrc > w.cur.no; n-- { // the most recent one that used it
+			if n%nSrc == k {
+				w.truncated[n] = true
+				break
+			}
+		}
+	}
+	return false
+}
+
+func (w *world) addProbe(cf *CaseFile, desc, probe, label string) {
+	w.records = append(w.records, probeRec{w.cur.no, desc, probe, label})
+}
+
+// flush commits the scenario's records, except those of probes that turned out truncated.
 func (w *world) flush(cf *CaseFile, im *Impl) {
-	time.Sleep(30 * time.Millisecond)
-	w.checkPending(cf, im)
+	w.begin(false, "", "", "", "", false) // whatever still arrives is attributed, not recorded
+	w.quiet(250 * time.Millisecond)
+	w.mu.Lock()
+	trunc := w.truncated
+	w.mu.Unlock()
+	for _, r := range w.records {
+		if trunc[r.no] {
+			im.Hist("discarded:something-of-the-probe-arrived-after-its-observation-window")
+			continue
+		}
+		if r.desc != w.grpDesc || len(w.grpProbes) >= 12 {
+			w.flushGroup(cf)
+		}
+		w.grpDesc = r.desc
+		w.grpProbes = append(w.grpProbes, r.probe)
+		w.grpLabels = append(w.grpLabels, r.label)
+	}
+	w.records = nil
 	w.flushGroup(cf)
 }
 
@@ -179,6 +234,13 @@ func (w *world) tap(a, b string) func([]byte) {
 				p.Data, p.Notice, p.About = noticeBody(um), true, um
 			}
 		}
+		if p.Notice {
+			if !w.ownNotice(p.About) {
+				return
+			}
+		} else if !w.ownData(md.Data) {
+			return
+		}
 		if len(w.taps) > 2000 {
 			w.runaway = true
 			return
@@ -201,7 +263,7 @@ func newWorld(name string, nodes []string, links [][2]int, maxHops byte, phantom
 	consts.RouteUpdate = 10 * time.Second // keep periodic floods rare once converged
 	consts.ServiceAd = time.Hour
 	w := &world{name: name, nodes: nodes, links: links, maxHops: maxHops, mesh: NewMesh(consts),
-		timeouts: map[[2]string]int{}, services: map[string][]string{}, socks: map[string]netceptor.PacketConner{}, sockNtf: map[string]chan netceptor.UnreachableNotification{}}
+		timeouts: map[[2]string]int{}, services: map[string][]string{}, socks: map[string][]netceptor.PacketConner{}, truncated: map[uint32]bool{}, sockNtf: map[string]chan netceptor.UnreachableNotification{}}
 	octx, ocancel := context.WithCancel(context.Background())
 	w.obsStop = ocancel
 	w.observer = netceptor.NewWithConsts(octx, "observer", 16384, time.Hour, time.Hour, time.Hour, 30, time.Hour)
@@ -248,21 +310,23 @@ func newWorld(name string, nodes []string, links [][2]int, maxHops byte, phantom
 	time.Sleep(350 * time.Millisecond) // let the last routing-table rebuild (100 ms debounce) finish
 	for _, id := range nodes {
 		n := w.mesh.Nodes[id]
-		for _, svc := range []string{"src", "svc"} {
+		for _, svc := range []string{"src0", "src1", "src2", "src3", "svc"} {
 			pc, err := n.ListenPacket(svc)
 			if err != nil {
 				return nil, err
 			}
 			w.services[id] = append(w.services[id], svc)
-			if svc == "src" {
-				w.socks[id] = pc
+			if strings.HasPrefix(svc, "src") {
+				w.socks[id] = append(w.socks[id], pc)
 				done := make(chan struct{})
 				ch := pc.SubscribeUnreachable(done)
 				go func(id string) {
 					for m := range ch {
 						w.mu.Lock()
-						w.sockNtfs = append(w.sockNtfs, ntfEv{id, m.ReceivedFromNode, noticeBody(m.UnreachableMessage), m})
 						atomic.AddInt64(&w.activity, 1)
+						if w.ownNotice(m.UnreachableMessage) {
+							w.sockNtfs = append(w.sockNtfs, ntfEv{id, m.ReceivedFromNode, noticeBody(m.UnreachableMessage), m})
+						}
 						w.mu.Unlock()
 					}
 				}(id)
@@ -277,8 +341,10 @@ func newWorld(name string, nodes []string, links [][2]int, maxHops byte, phantom
 					s := addr.String()
 					i := strings.LastIndex(s, ":")
 					w.mu.Lock()
-					w.dlvs = append(w.dlvs, dlvEv{id, svc, s[:i], s[i+1:], append([]byte{}, buf[:k]...)})
 					atomic.AddInt64(&w.activity, 1)
+					if w.ownData(buf[:k]) {
+						w.dlvs = append(w.dlvs, dlvEv{id, svc, s[:i], s[i+1:], append([]byte{}, buf[:k]...)})
+					}
 					w.mu.Unlock()
 				}
 			}(id, svc, pc)
@@ -288,8 +354,10 @@ func newWorld(name string, nodes []string, links [][2]int, maxHops byte, phantom
 			for x := range bch {
 				if m, ok := x.(netceptor.UnreachableNotification); ok {
 					w.mu.Lock()
-					w.ntfs = append(w.ntfs, ntfEv{id, m.ReceivedFromNode, noticeBody(m.UnreachableMessage), m})
 					atomic.AddInt64(&w.activity, 1)
+					if w.ownNotice(m.UnreachableMessage) {
+						w.ntfs = append(w.ntfs, ntfEv{id, m.ReceivedFromNode, noticeBody(m.UnreachableMessage), m})
+					}
 					w.mu.Unlock()
 				}
 			}
@@ -411,7 +479,7 @@ func (w *world) settle() { w.quiet(2 * time.Millisecond) }
 // (and, for a send through the socket "src", that socket's own subscription).  Otherwise
 // (dropped, expired silently, notice lost) only a long silence tells: short silences are not
 // trusted, a loaded machine produces gaps of tens of milliseconds in the middle of a chain.
-func (w *world) awaitEnd(src, fsvc string, syncErr bool) {
+func (w *world) awaitEnd(src string, viaSocket bool, syncErr bool) {
 	if syncErr {
 		w.quiet(time.Millisecond)
 		return
@@ -433,7 +501,7 @@ func (w *world) awaitEnd(src, fsvc string, syncErr bool) {
 			}
 		}
 		w.mu.Unlock()
-		if done || (atBroker && (fsvc != "src" || atSocket)) {
+		if done || (atBroker && (!viaSocket || atSocket)) {
 			w.quiet(time.Millisecond)
 			return
 		}
